@@ -329,10 +329,13 @@ def main():
                 sol = np.linalg.lstsq(np.c_[X0[:, :dim], np.ones(len(X0))], X1[:, :dim], rcond=None)[0]
                 B, t = sol[:dim].T, sol[dim]
                 Binv = np.linalg.inv(B)
+                # ... and where the points of the mesh are now, in all three coordinates (a bar translated off its axis keeps its own
+                # abscissa as the only coordinate of the map above, but a coefficient k(x, y, z) sees its new y and z)
+                sol3 = np.linalg.lstsq(np.c_[X0[:, :dim], np.ones(len(X0))], X1, rcond=None)[0]
                 for (mt, c, fld, terms, saved, law, form) in jobs:
                     N0, dN0, wJ0, Xg0 = saved
                     Xg = np.array(Xg0)
-                    Xg[..., :dim] = Xg0[..., :dim] @ B.T + t
+                    Xg[..., :] = Xg0[..., :dim] @ sol3[:dim] + sol3[dim]
                     tables = (N0, np.einsum("lk,eplj->epkj", Binv, dN0), abs(np.linalg.det(B)) * wJ0, Xg)
                     nm = "+".join(x[0] for x in terms) if terms is not None else "isotropic elasticity"
                     ident = dict(elemType=et, matrixType=str(mt), dof_n=c, form=nm, history=list(history), scenario="same Field and form objects used after each in-place move of the mesh")
@@ -372,7 +375,7 @@ def main():
     from scipy.sparse import coo_matrix
     from EasyFEA import ElemType
     from EasyFEA.Geoms import Domain
-    for et, n, c in ((("TRI3", 280, 1), ("QUAD4", 200, 2)) if not thorough else (("TRI3", 280, 1), ("QUAD4", 200, 2), ("TRI3", 150, 3), ("QUAD4", 420, 1))):
+    for et, n, c in ((("TRI3", 280, 1), ("QUAD4", 200, 2)) if not thorough else (("TRI3", 280, 1), ("QUAD4", 200, 2), ("TRI3", 150, 2), ("QUAD4", 420, 1))):
         ident = dict(elemType=et, domain="unit square, organised", cells_per_side=n, dof_n=c)
         try:
             mesh = Domain((0, 0), (1, 1), 1 / n).Mesh_2D([], ElemType(et), isOrganised=True)
@@ -417,7 +420,7 @@ def main():
             mp_ = _MeshC(mp_.dict_groupElem)      # a mesh object built on the moved groups: it knows it lives in 3D
             kc_ = 2.0
             refp = Simulations.Thermal(mp_, Models.Thermal(kc_, 1.0, thickness=0.5))
-            simp = Simulations.WeakForms(mp_, Models.WeakForms(Field(mp_.groupElem, 1), BiLinearForm(lambda u, v: kc_ * u.grad.dot(v.grad)), thickness=0.5))
+            simp = Simulations.WeakForms(mp_, Models.WeakForms(Field(mp_.groupElem, 1, MatrixType.rigi), BiLinearForm(lambda u, v: kc_ * u.grad.dot(v.grad)), thickness=0.5))      # same quadrature as Thermal's conduction matrix
             Kr_, Kw_ = refp.Get_K_C_M_F()[0].toarray(), simp.Get_K_C_M_F()[0].toarray()
             if not (np.abs(Kr_ - Kw_).max() <= 1e-9 * np.abs(Kr_).max()):
                 res.fail("weak-form conduction matrix differs from Thermal on a plate in space", f"max |K_thermal - K_weakform| / |K| = {np.abs(Kr_ - Kw_).max() / np.abs(Kr_).max():.3e} (inDim = {mp_.inDim}, dim = {mp_.dim})", ident)
